@@ -11,7 +11,7 @@ META = dict(
                        "splitter2rpn", "_ordering", "_iterate_list", "iter_splits", "map_splits", "input_shape", "flatten",
                        "pydra.compose.base.task.Task.split", "pydra.engine.submitter.Submitter.__call__ (L2 conditions)"],
     stubs=["L1 conditions: none (State is pure)", "L2 conditions: see vf/engine.py (real file system in a scratch directory, logical clock)"],
-    outside=["more than 4 split fields, lists longer than 3 (L1) / 2 (L2)", "non-list iterables", "real process-pool workers (C17 covers schedules)"],
+    outside=["more than 4 split fields, lists longer than 3 (L1) / 2 (L2)", "non-list iterables", "real process-pool workers (C17 covers schedules)", "element kinds beyond: distinct ints, a duplicate, a None element, falsy elements (0, '', False), list/tuple-valued elements"],
     assumptions=["when two operands of an inner product have the same number of elements but different nested shape pydra may reject "
                  "(the property promises rejection for different lengths, not acceptance for odd shapes)"],
 )
@@ -108,10 +108,10 @@ def build(tier, seed, exclude):
         l2 += S.trees(["a", "b", "c"]) + [["a", ("b", ["c", "d"])], (("a", "b"), ("c", "d")), [["a", "b"], ["c", "d"]]]
     for t in l2:
         fs = sorted(set(S.fields(t)))
-        params = ", ".join(f"n{f}: int" for f in fs) + ", dup: bool"
-        pre = [" and ".join(f"0 <= n{f} <= 2" for f in fs)]
+        params = ", ".join(f"n{f}: int" for f in fs) + ", dup: bool, tok: int"
+        pre = [" and ".join(f"0 <= n{f} <= 2" for f in fs) + " and 0 <= tok < 4"]
         g.cond("h_l2_" + S.tree_name(t), params, pre, f"""
-            err = SR.l2_split({t!r}, {{{", ".join(f'"{f}": n{f}' for f in fs)}}}, dup, 7)
+            err = SR.l2_split({t!r}, T.real({{{", ".join(f'"{f}": n{f}' for f in fs)}}}), T.real(dup), 7, tok=T.real(tok))
             return T.fail(err) if err else True
         """, timeout=(60 if quick else 300))
     g.cond("twin_l2", "na: int", ["0 <= na <= 1"], """
